@@ -374,19 +374,15 @@ fn c04_q_session_first_two_messages() {
 // ==========================================================================================
 // C10: exchange matching and the new-exchange gate
 // ==========================================================================================
-#[cfg_attr(kani, kani::proof)]
-#[cfg_attr(kani, kani::unwind(8))]
-#[cfg_attr(kani, kani::stub(embassy_time::Instant::now, crate::verif_support::stub_instant_now))]
-#[cfg_attr(not(kani), test)]
-fn c10_q_exchange_matching_and_gate() {
+fn exchange_matching_and_gate<const K: usize>() {
     let mut ss = Sessions::new();
     let s = fresh_case_session(&mut ss);
-    // up to 3 slots, some of them free again
+    // up to K slots, some of them free again
     let n = any_u8();
-    assume(n <= 3);
-    let mut ids = [0u16; 3];
-    let mut resp = [false; 3];
-    let mut live = [false; 3];
+    assume(n as usize <= K);
+    let mut ids = [0u16; K];
+    let mut resp = [false; K];
+    let mut live = [false; K];
     let mut i = 0usize;
     while i < n as usize {
         let id = any_u16();
@@ -413,7 +409,7 @@ fn c10_q_exchange_matching_and_gate() {
     // reference: first live slot with the same id and the opposite role
     let mut want: Option<usize> = None;
     let mut k = 0usize;
-    while k < 3 {
+    while k < K {
         if want.is_none() && live[k] && ids[k] == eid && resp[k] == init {
             want = Some(k);
         }
@@ -456,10 +452,33 @@ fn c10_q_exchange_matching_and_gate() {
     }
     // only the MRP layer can refuse a matched message (foreign ack => Duplicate) - no ack here
     vassert!(!(r.is_err() && want.is_some()), "ROLE:matched-message-without-ack-is-delivered");
-    let free_slot = (n as usize) < MAX_EXCHANGES || !(live[0] && live[1] && live[2]);
+    let mut all_live = true;
+    let mut q = 0usize;
+    while q < K {
+        all_live &= live[q];
+        q += 1;
+    }
+    let free_slot = (n as usize) < MAX_EXCHANGES || !all_live;
     if want.is_none() && init && !is_ack_or_status && !expired && free_slot {
         vassert!(r.is_ok(), "ROLE:legitimate-initiator-message-opens-exchange-when-slot-free");
     }
+}
+
+#[cfg_attr(kani, kani::proof)]
+#[cfg_attr(kani, kani::unwind(8))]
+#[cfg_attr(kani, kani::stub(embassy_time::Instant::now, crate::verif_support::stub_instant_now))]
+#[cfg_attr(not(kani), test)]
+fn c10_q_exchange_matching_and_gate() {
+    exchange_matching_and_gate::<3>();
+}
+
+/// thorough: all MAX_EXCHANGES (5) slots arbitrary
+#[cfg_attr(kani, kani::proof)]
+#[cfg_attr(kani, kani::unwind(8))]
+#[cfg_attr(kani, kani::stub(embassy_time::Instant::now, crate::verif_support::stub_instant_now))]
+#[cfg_attr(not(kani), test)]
+fn c10_t_exchange_matching_and_gate_5_slots() {
+    exchange_matching_and_gate::<5>();
 }
 
 /// Exchange slot table full (MAX_EXCHANGES live exchanges): a new initiator message gets
@@ -881,4 +900,64 @@ fn c07_q_expired_session_refuses_new_exchange() {
     let r = s.post_recv(&mk_hdr(any_u32(), any_u16(), any_bool(), any_bool(), None, any_u16(), any_u8()));
     vassert!(r.is_err(), "ROLE:expired-session-opens-no-new-exchange");
     vassert!(count_exch(s) == 0, "ROLE:expired-session-opens-no-new-exchange");
+}
+
+// ==========================================================================================
+// C03: which session an incoming datagram is matched to (before any key is used): only a
+// session with the datagram's session id, the same kind (secured / unsecured), the same peer
+// transport address and a compatible source node id; never a reserved one.
+// ==========================================================================================
+#[cfg_attr(kani, kani::proof)]
+#[cfg_attr(kani, kani::unwind(8))]
+#[cfg_attr(kani, kani::stub(embassy_time::Instant::now, crate::verif_support::stub_instant_now))]
+#[cfg_attr(not(kani), test)]
+fn c03_q_rx_session_selection() {
+    use core::net::{IpAddr, Ipv4Addr, SocketAddr};
+    let mut ss = Sessions::new();
+    let (ip_s, port_s) = (any_u32(), any_u16());
+    let addr_s = Address::Udp(SocketAddr::new(IpAddr::V4(Ipv4Addr::from(ip_s)), port_s));
+    let reserved = any_bool();
+    let peer_node = if any_bool() { Some(any_u64()) } else { None };
+    let mode = any_mode();
+    let secured = !matches!(mode, SessionMode::PlainText);
+    let (lsid, lnode) = (any_u16(), any_u64());
+    {
+        let s = vok!(ss.add(1, reserved, addr_s, peer_node, &DEV), "harness-setup-call-succeeds");
+        s.mode = mode;
+        s.local_sess_id = lsid;
+        s.local_nodeid = lnode;
+    }
+    // the incoming datagram
+    let (ip_r, port_r) = (any_u32(), any_u16());
+    let addr_r = Address::Udp(SocketAddr::new(IpAddr::V4(Ipv4Addr::from(ip_r)), port_r));
+    let mut plain = PlainHdr::default();
+    plain.sess_id = any_u16();
+    plain.set_group_session(any_bool());
+    let src = if any_bool() { Some(any_u64()) } else { None };
+    plain.set_src_nodeid(src);
+    let dst = if any_bool() { Some(any_u64()) } else { None };
+    plain.set_dst_unicast_nodeid(dst);
+    let hit = ss.get_for_rx(&addr_r, &plain).is_some();
+    let same_addr = ip_s == ip_r && port_s == port_r;
+    let src_ok = match (peer_node, src) {
+        (Some(a), Some(b)) => a == b,
+        _ => true,
+    };
+    let dst_ok = secured
+        || lnode == 0
+        || match dst {
+            Some(d) => d == lnode,
+            None => true,
+        };
+    let want = !reserved && plain.sess_id == lsid && plain.is_encrypted() == secured && same_addr && src_ok && dst_ok;
+    vcover!(hit && secured);
+    vcover!(hit && !secured && dst.is_some());
+    if hit {
+        vassert!(plain.sess_id == lsid, "ROLE:datagram-matched-only-to-the-session-with-its-session-id");
+        vassert!(plain.is_encrypted() == secured, "ROLE:secured-datagram-never-matched-to-unsecured-session-and-vice-versa");
+        vassert!(same_addr, "ROLE:datagram-matched-only-to-a-session-with-the-same-peer-address");
+        vassert!(src_ok, "ROLE:datagram-of-another-source-node-not-matched");
+        vassert!(!reserved, "ROLE:reserved-session-receives-nothing");
+    }
+    vassert!(hit == want, "ROLE:rx-session-selection-equals-reference");
 }
